@@ -74,7 +74,7 @@ fn trace_plan(plan: &Plan, oracle: Oracle) -> Vec<String> {
 
 pub fn summarize_plan(p: &Plan) -> String {
     format!(
-        "callers={:?} changes={:?} faults={:?} net={{mode:{:?} delay:{:?} lat:{} rp:{:?} c2s:{:?} wc:{:?} wp:{:?}}} pw={:?} pics={} limit={} seed={}",
+        "callers={:?} changes={:?} faults={:?} net={{mode:{:?} delay:{:?} lat:{} rp:{:?} c2s:{:?} wc:{:?} wp:{:?} eof+{}}} pw={:?} pics={} limit={} seed={}",
         p.callers,
         p.changes.iter().map(|c| (c.at_ms, c.names.clone())).collect::<Vec<_>>(),
         p.faults,
@@ -85,6 +85,7 @@ pub fn summarize_plan(p: &Plan) -> String {
         p.net.c2s_latency_ms,
         p.net.write_chunk.iter().map(|c| if *c == usize::MAX { 0 } else { *c }).collect::<Vec<_>>(),
         p.net.write_pending,
+        p.net.eof_delay_ms,
         p.password,
         p.pictures.len(),
         p.binary_limit,
@@ -712,6 +713,9 @@ pub fn sweep_bases() -> Vec<Plan> {
         NetPolicy {
             s2c_mode: SegMode::Lines,
             s2c_delay_ms: vec![1],
+            // the FIN trails the data by 2 ms: an end of stream can arrive after a request has
+            // interrupted the receive that had read the last bytes
+            eof_delay_ms: 2,
             ..NetPolicy::default()
         },
         NetPolicy {
